@@ -418,6 +418,13 @@ func (c *FnCtx) callContract(fr *Frame, st *State, x *ssa.Call, callee *ssa.Func
 		olds = append(olds, c.evalGhost(st, e.ld.GhostFunc(o.Fn), args))
 	}
 	pre := st.clone()
+	// the callee may allocate
+	nw := ts.Fresh("wm!call", SInt)
+	c.addFact(st, ts.Ge(nw, st.wm))
+	st.wm = nw
+	if c.writeLog != nil {
+		c.writeLog.wm = true
+	}
 	wroteGlobal := false
 	for _, m := range fc.Modifies {
 		for _, mt := range c.resolveModifiesAll(pre, callee, m, args) {
@@ -438,13 +445,6 @@ func (c *FnCtx) callContract(fr *Frame, st *State, x *ssa.Call, callee *ssa.Func
 				c.setHeapAt(st, mt.heap, srt, mt.obj, ts.Fresh("call!"+mt.heap, es))
 			}
 		}
-	}
-	// the callee may allocate
-	nw := ts.Fresh("wm!call", SInt)
-	c.addFact(st, ts.Ge(nw, st.wm))
-	st.wm = nw
-	if c.writeLog != nil {
-		c.writeLog.wm = true
 	}
 	res := c.freshResults(st, &x.Call, "r!"+callee.Name())
 	if wroteGlobal {
@@ -575,7 +575,15 @@ func (c *FnCtx) builtin(fr *Frame, st *State, x *ssa.Call, b *ssa.Builtin) {
 		s := fr.val(args[0]).(*Term)
 		t := fr.val(args[1]).(*Term)
 		c.trusted["slices are immutable sequence values: append is concatenation; aliasing through spare capacity is not modelled"] = true
-		fr.regs[x] = ts.Concat(s, t)
+		r := ts.Concat(s, t)
+		if r.sort != SString && r.kind == kApp && r.op == "seq.++" {
+			// elements of a concatenation (instantiation lemmas for quantified invariants)
+			bv := ts.Bound("j", SInt)
+			c.addFactNth(st, r, ts.Quant("forall", bv, ts.Implies(ts.And(ts.Le(ts.Int(0), bv), ts.Lt(bv, ts.Len(s))), ts.Eq(ts.Nth(r, bv), ts.Nth(s, bv)))))
+			bv2 := ts.Bound("j", SInt)
+			c.addFactNth(st, r, ts.Quant("forall", bv2, ts.Implies(ts.And(ts.Le(ts.Len(s), bv2), ts.Lt(bv2, ts.Len(r))), ts.Eq(ts.Nth(r, bv2), ts.Nth(t, ts.Sub(bv2, ts.Len(s)))))))
+		}
+		fr.regs[x] = r
 	case "copy":
 		dst := fr.val(args[0]).(*Term)
 		src := fr.val(args[1]).(*Term)
